@@ -29,13 +29,15 @@ func (core *JApiCore) buildRule(d *directive.Directive) *jerr.JApiError {
 		return nil
 	}
 
-	if !d.BodyCoords.IsSet() {
-		return nil
-	}
-
 	name := d.NamedParameter("Name")
 	if name == "" {
 		return d.KeywordError(fmt.Sprintf("%s (%s)", jerr.RequiredParameterNotSpecified, "Name"))
+	}
+
+	if !d.BodyCoords.IsSet() {
+		// The scanner lets an ENUM without a body pass when the file ends right
+		// after the directive, without a line break.
+		return d.KeywordError(jerr.BodyIsEmpty)
 	}
 
 	r := enum.New(name, d.BodyCoords.Read())
